@@ -51,6 +51,7 @@ type VConn struct {
 	deadlineSet bool
 	written     [][]byte // units written successfully, in order
 	closes      int
+	closeErr    error // what Close reports after having closed the connection (tls: "failed to send closeNotify alert (but connection was closed anyway)")
 }
 
 func newVConn() *VConn { return &VConn{auto: true} }
@@ -194,7 +195,7 @@ func (v *VConn) Close() error {
 	for _, g := range reads {
 		g.ch <- gateRes{err: errVClosed}
 	}
-	return nil
+	return v.closeErr
 }
 
 func (v *VConn) Closed() bool {
